@@ -100,7 +100,13 @@ func genWorldKeyed(src *choice.Src, o WOpts, keySeed uint64) *World {
 		w.PreOut = &InFile{Path: w.Out, Content: "// SENTINEL " + fmt.Sprint(src.Draw("sentinel", 1000)) + "\npackage old\n", Mode: []uint32{0644, 0600, 0664, 0755}[src.Draw("premode", 4)]}
 	}
 	if o.LayoutFault && src.Chance("oddout", 1, 6) {
-		switch src.Draw("oddoutk", 6) {
+		switch src.Draw("oddoutk", 9) {
+		case 6: // a chain of links that enters a cycle not containing -o itself
+			w.OutKind, w.Out, w.PreOut = "symlink-cycle", "gen.go", nil
+		case 7: // a dangling link with a relative target, in a directory that is not cwd
+			w.OutKind, w.Out, w.PreOut = "symlink-dangling", "out/gen.go", nil
+		case 8: // a link to itself
+			w.OutKind, w.Out, w.PreOut = "symlink-self", "gen.go", nil
 		case 4, 5:
 			// a symbolic link to an existing regular file that is longer than anything generated here
 			w.OutKind = "symlink"
